@@ -50,8 +50,8 @@ def observe(u, root, pids, fmts):
     """what a fresh instance opened on [root] serves: pid -> retrieve_object outcome, (pid, fmt) -> retrieve_metadata outcome"""
     im = Impl(u, pids, fmts, root=root)
     try:
-        objs = {p: im.call({"op": "ro", "p": p}) for p in pids}
-        metas = {(p, f): im.call({"op": "rm", "p": p, "f": f}) for p in pids for f in fmts}
+        objs = {p: cf.guarded_call(im, {"op": "ro", "p": p}) for p in pids}
+        metas = {(p, f): cf.guarded_call(im, {"op": "rm", "p": p, "f": f}) for p in pids for f in fmts}
         return objs, metas
     finally:
         for s in im.open_streams:
@@ -133,10 +133,10 @@ def c10(run):
                     _, rroot = cf.abstract_snapshot(u, states[n], base, pids, fmts, "rec")
                     im = Impl(u, pids, fmts, root=rroot)
                     try:
-                        r1 = im.call({"op": "del", "p": ip})
-                        r2 = im.call({"op": "so", "p": ip, "b": d, "n": 1})
-                        r3 = im.call({"op": "ro", "p": ip})
-                        o_after = {q: im.call({"op": "ro", "p": q}) for q in others}
+                        r1 = cf.guarded_call(im, {"op": "del", "p": ip})
+                        r2 = cf.guarded_call(im, {"op": "so", "p": ip, "b": d, "n": 1}) if r1 != "HANG" else "exn:not-attempted (delete_object does not return)"
+                        r3 = cf.guarded_call(im, {"op": "ro", "p": ip}) if r1 != "HANG" else "exn:not-attempted"
+                        o_after = {q: cf.guarded_call(im, {"op": "ro", "p": q}) for q in others} if r1 != "HANG" else {q: objs0[q] for q in others}
                     finally:
                         for sfh in im.open_streams:
                             sfh.close()
